@@ -309,7 +309,7 @@ type PanicInfo struct {
 
 var (
 	reNum   = regexp.MustCompile(`\b(0x[0-9a-fA-F]+|\d+)\b`)
-	reFrame = regexp.MustCompile(`(?m)^(github\.com/zmap/zcrypto[^\s(]*)`)
+	reFrame = regexp.MustCompile(`(?m)^(github\.com/zmap/zcrypto\S*)\(`)
 )
 
 // Classify turns a panic value and stack into a stable witness key.
